@@ -87,6 +87,44 @@ CLAIMED = {
         note='Trusted: CPython reference counting + gc.collect(); POSIX '
              'unlink semantics; harness reference hygiene (histories run in '
              'their own frame, exceptions never stored).'),
+    'C07': dict(
+        level='exploration', ref='§3 C07',
+        technique='deterministic simulation: hash joins under iterator '
+                  'schedules and pass histories (cached build side on/off) '
+                  'against a nested-loop reference in streamed-side order '
+                  'and against the sort-merge joins; lookups against a dict '
+                  'model',
+        text='Each hash join view is stepped by 2..3 iterators (abandoned, '
+             'interleaved, then two fresh passes, cache on/off) and every '
+             'delivered row is compared with a nested-loop reference in '
+             'streamed-side order; header and multiset are compared with '
+             'the corresponding merge join on the same inputs (None, '
+             'mixed-type, compound keys, lkey != rkey, empty sides, ragged '
+             'rows, missing/prefix arguments). The six lookup functions are '
+             'compared with a dict model incl. strict duplicates and a '
+             'user dictionary reused across two calls. Sampled.',
+        note='Claimed for the cache / pass-history / emission-order clauses; '
+             'the input space is sampled (without the pass dimension this '
+             'would be a differential test, said plainly). Trusted: the '
+             'nested-loop and dict models in checks/c07.py.'),
+    'C11': dict(
+        level='exploration', ref='§3 C11',
+        technique='deterministic simulation: knob sweep (differential '
+                  'against the default call) + history machine of (edit '
+                  'source, iterate) steps against a cache model with '
+                  'metered sources',
+        text='42 sort-backed operator forms. Knob machine: buffersize 1..n+1, '
+             'tempdir, cache=False, global sort_buffersize, presorted=True '
+             'on inputs presorted by petl.sort (after squaring up), pairs of '
+             'knobs, two passes each, compared with the default call '
+             '(header, rows, order). History machine: passes (full or '
+             'abandoned, over either output of two-output operators) '
+             'interleaved with source edits, judged by a three-case cache '
+             'model; pulls from the metered sources are part of the '
+             'judgement. Sampled.',
+        note='Trusted: the cache model (DESIGN.md C11); edits happen only '
+             'between passes; configurations without a sort are outside the '
+             'cache clause.'),
     'C15': dict(
         level='exploration', ref='§3 C15',
         technique='deterministic simulation: history machine of to*/append*/'
